@@ -59,6 +59,8 @@ def run_group(ck, pid, init, want, cover):
     elif not byprog or sum(len(v) for v in byprog.values()) != res.emitted:
         raise MachineryError("emitted %d records, grouped %d" % (res.emitted, sum(len(v) for v in byprog.values())))
     forms = FORMS
+    # line widths and dash operands in half units (1.5 w, [2 0.5] 1.5 d) wherever no left-over operand can reach w / d
+    IR.HALF = not (mixed or init.startswith("InitPass") or init.startswith("InitBad"))
     keys = list(byprog)
     CH = 150
     alltag = ",".join(sorted(dev))
@@ -199,7 +201,7 @@ def _forms():
     fm1 = [Op("BT"), Nm("F1"), N(10), Op("Tf"), S(b"A"), Op("Tj"), Op("ET"), N(0), N(0), N(5), N(5), Op("re"), Op("f"),
            N(3), N(0), N(0), N(3), N(0), N(0), Op("cm")]
     fm2 = [N(0), N(1), N(0), Op("rg"), N(2), Op("w"), Op("q"), Op("BT"), Nm("F1"), N(20), Op("Tf"), N(2), Op("Tc"), S(b"BA"), Op("Tj"),
-           Op("ET"), N(1), N(1), Op("m"), N(4), N(1), Op("l"), Op("S")]
+           Op("ET"), N(1), N(1), Op("m"), N(4), N(1), Op("l"), Op("S"), N(2), N(0), N(0), N(2), N(3), N(3), Op("cm")]
     fm3 = [Op("BT"), Nm("F1"), N(10), Op("Tf"), S(b"B"), Op("Tj"), Op("ET"), Nm("Fm1"), Op("Do"), Nm("Fm3"), Op("Do"), Nm("Fm2"), Op("Do"),
            Op("BT"), Nm("F1"), N(10), Op("Tf"), S(b"A"), Op("Tj"), Op("ET")]
     fm4 = [N(1), N(0), N(0), Op("rg"), Op("BT"), Nm("F1"), N(10), Op("Tf"), S(b"AB"), Op("Tj"), Op("ET")]
